@@ -29,7 +29,7 @@ ASSUMPTIONS = [
 ]
 MANDATORY = ["join:outer", "join:inner", "sort:True", "axis:given", "rel:permuted", "rel:overlapping", "rel:disjoint", "rel:subset",
              "input:dataset", "input:scalar", "dim-in-one-input-only", "all-sorted-inc", "all-sorted-dec", "labels:int-vs-float", "labels:s",
-             "sort-on-unsorted", "inner:ordered-result-len>=2", "outer:ordered-result-len>=2"]
+             "sort-on-unsorted", "inner:ordered-result-len>=2", "outer:ordered-result-len>=2", "no-fill:dtype-kept:i"]
 
 
 def budget(tier):
@@ -260,6 +260,11 @@ def run_case(case):
             exp = m_in.cells.get(coord, float("nan"))
             if not core.same_scalar(got, exp):
                 raise Violation("value", {"what": what, "where": where, "coord": core.jsonable(coord), "got": core.jsonable(got), "expected": core.jsonable(exp)}, sig=sig)
+        # "needs no fill": an array that already holds every label of the result keeps the type of its data (integers are not turned into floats)
+        if all(coord in m_in.cells for coord in m_out.coords()):
+            src_dtype = core.spec_values(spec).dtype
+            check(out.values.dtype == src_dtype, "dtype-changed-without-fill", {"what": what, "where": where, "got": str(out.values.dtype), "source": str(src_dtype)}, sig)
+            cl.add("no-fill:dtype-kept:" + src_dtype.kind)
 
     for k, (inp, out) in enumerate(zip(inputs, res)):
         where = "output %d" % k
